@@ -118,64 +118,37 @@ func eqStrings(a, b []string) bool {
 // CheckOpts tunes CompareTruth.
 type CheckOpts struct {
 	Where      string
-	SkipErrors bool            // do not check the error report
-	Tolerate   map[string]bool // Spec paths whose state is allowed to be anything (touched inside a scan window)
-	DirKeys    map[string]bool // keys of GetErrors that are directory entries (allowed)
-	ExtraMust  map[string]bool // additional paths that must have an error entry (transient faults)
-	NoMustErr  bool
+	SkipErrors bool                   // do not check the error report
+	TolNames   map[string]bool        // qualified names whose resolution may be anything (their file was touched inside a scan window)
+	TolPaths   map[string]bool        // Spec paths whose error entry may be present or absent
+	DirKeys    map[string]bool        // keys of GetErrors that are directory entries (allowed)
+	MayErr     func(path string) bool // further paths that may have an error entry
+}
+
+func without(xs []string, drop map[string]bool) []string {
+	var out []string
+	for _, x := range xs {
+		if !drop[x] {
+			out = append(out, x)
+		}
+	}
+	return out
 }
 
 // CompareTruth checks a View against the model.  It returns "" or a (rule, detail, message) triple.
 func CompareTruth(v *View, t *model.Truth, o CheckOpts) (rule, sig, msg string) {
 	want := t.Resolve()
 	defined := t.Defined()
-	tol := func(path string) bool { return o.Tolerate != nil && o.Tolerate[path] }
-	// device listing
 	var wantNames []string
 	for q := range want {
 		wantNames = append(wantNames, q)
 	}
 	sort.Strings(wantNames)
-	if !eqStrings(v.Devices, wantNames) && len(o.Tolerate) == 0 {
-		// classify
-		for _, q := range wantNames {
-			if dv, ok := v.Dev[q]; !ok || dv.Nil {
-				return "resolve", classifyMissing(q, t), fmt.Sprintf("%s: %s must resolve to %s (priority %d) but does not; ListDevices=%v want %v", o.Where, q, want[q].Path, want[q].Prio, v.Devices, wantNames)
-			}
-		}
-		for _, q := range v.Devices {
-			if _, ok := want[q]; !ok {
-				why := "never defined by a valid file"
-				if defined[q] {
-					why = "conflicting at its highest priority"
-				}
-				return "resolve", "extra/" + strings.ReplaceAll(why, " ", "-"), fmt.Sprintf("%s: %s is listed but must not resolve (%s); got %+v", o.Where, q, why, v.Dev[q])
-			}
-		}
-	}
-	for q, dv := range v.Dev {
-		w, ok := want[q]
-		if !ok {
-			if !dv.Nil && !tol(dv.Path) && len(o.Tolerate) == 0 {
-				why := "never-defined"
-				if defined[q] {
-					why = "conflict-at-top"
-				}
-				return "resolve", "extra/" + why, fmt.Sprintf("%s: GetDevice(%s) = %+v but the name must not resolve (%s)", o.Where, q, dv, why)
-			}
-			continue
-		}
-		if tol(w.Path) {
-			continue
-		}
-		if dv.Nil {
-			if len(o.Tolerate) > 0 {
-				continue
-			}
-			return "resolve", classifyMissing(q, t), fmt.Sprintf("%s: GetDevice(%s) = nil, want %s priority %d", o.Where, q, w.Path, w.Prio)
-		}
-		if tol(dv.Path) {
-			continue
+	for _, q := range without(wantNames, o.TolNames) {
+		w := want[q]
+		dv, ok := v.Dev[q]
+		if !ok || dv.Nil {
+			return "resolve", classifyMissing(q, t), fmt.Sprintf("%s: %s must resolve to %s (priority %d) but does not; ListDevices=%v want %v", o.Where, q, w.Path, w.Prio, v.Devices, wantNames)
 		}
 		if dv.Path != w.Path || dv.Prio != w.Prio {
 			return "resolve", "wrong-file", fmt.Sprintf("%s: %s resolves to %s (priority %d), want %s (priority %d)", o.Where, q, dv.Path, dv.Prio, w.Path, w.Prio)
@@ -184,7 +157,32 @@ func CompareTruth(v *View, t *model.Truth, o CheckOpts) (rule, sig, msg string) 
 			return "resolve", "stale-definition", fmt.Sprintf("%s: %s resolves to %s with marker %q, the file now holds %q", o.Where, q, dv.Path, dv.Marker, w.Marker)
 		}
 	}
-	if len(o.Tolerate) == 0 {
+	var probed []string
+	for q := range v.Dev {
+		probed = append(probed, q)
+	}
+	sort.Strings(probed)
+	for _, q := range without(probed, o.TolNames) {
+		dv := v.Dev[q]
+		if _, ok := want[q]; !ok && !dv.Nil {
+			why := "never-defined"
+			if defined[q] {
+				why = "conflict-at-top"
+			}
+			return "resolve", "extra/" + why, fmt.Sprintf("%s: GetDevice(%s) = %+v but the name must not resolve (%s)", o.Where, q, dv, why)
+		}
+	}
+	if !eqStrings(without(v.Devices, o.TolNames), without(wantNames, o.TolNames)) {
+		return "listing", "devices", fmt.Sprintf("%s: ListDevices=%v want %v", o.Where, v.Devices, wantNames)
+	}
+	for _, q := range v.Devices {
+		if dv, ok := v.Dev[q]; !ok || dv.Nil {
+			if !o.TolNames[q] {
+				return "listing", "listed-but-nil", fmt.Sprintf("%s: %s is listed by ListDevices but GetDevice returns nil", o.Where, q)
+			}
+		}
+	}
+	if len(o.TolNames) == 0 {
 		if !eqStrings(v.Vendors, t.Vendors()) {
 			return "listing", "vendors", fmt.Sprintf("%s: ListVendors=%v want %v", o.Where, v.Vendors, t.Vendors())
 		}
@@ -199,23 +197,18 @@ func CompareTruth(v *View, t *model.Truth, o CheckOpts) (rule, sig, msg string) 
 	}
 	if !o.SkipErrors {
 		must := t.MustErr()
-		for p := range o.ExtraMust {
-			must[p] = true
-		}
 		may := t.ConflictParticipants()
 		have := map[string]bool{}
 		for _, k := range v.ErrKeys {
 			have[k] = true
 		}
-		if !o.NoMustErr {
-			for p := range must {
-				if !have[p] && !tol(p) {
-					return "errors", "missing-entry", fmt.Sprintf("%s: %s is a failing Spec file but GetErrors has no entry for it (keys %v)", o.Where, p, v.ErrKeys)
-				}
+		for _, p := range sortedKeys(must) {
+			if !have[p] && !o.TolPaths[p] {
+				return "errors", "missing-entry", fmt.Sprintf("%s: %s is a failing Spec file but GetErrors has no entry for it (keys %v)", o.Where, p, v.ErrKeys)
 			}
 		}
 		for _, k := range v.ErrKeys {
-			if must[k] || may[k] || tol(k) || (o.DirKeys != nil && o.DirKeys[k]) {
+			if must[k] || may[k] || o.TolPaths[k] || (o.DirKeys != nil && o.DirKeys[k]) || (o.MayErr != nil && o.MayErr(k)) {
 				continue
 			}
 			return "errors", "spurious-entry", fmt.Sprintf("%s: GetErrors has an entry for %s (%s) which is not a failing Spec file", o.Where, k, v.Errs[k])
